@@ -2,14 +2,14 @@ SPECIFICATION Spec
 CONSTANTS
   Shape0 <- Sh0
   D = 2
-  Scales <- ScalesT
-  RotKeys = {"r90", "r180", "r270", "p345", "p345n", "p51213"}
+  Scales <- ScalesQ
+  RotKeys = {"p345"}
   Modes = {"ceil", "round", "floor"}
-  CropBoxes <- BoxesT
+  CropBoxes <- BoxesQ
   Zooms <- ZoomsQ
   Warps <- WarpsQ
   Order0Warps <- Order0Q
-  Ops <- BaseOps
+  Ops <- MixOps
 INVARIANT Registered
 INVARIANT ValidInsideOriginal
 INVARIANT Emit
